@@ -102,7 +102,7 @@ PROPS = {
                 'queue invariant (strictly increasing positions) preserved by every replay operation.',
         kani_quick=['K-hdr', 'E-dmg'], kani_thorough=[],
         trusted=[FS, 'crc32 uninterpreted ("genuine" = assembled only from CRC-valid frames)'],
-        not_decided=['relating a CRC-valid frame to the history that wrote it'],
+        not_decided=['relating a CRC-valid frame to the place it was written at: finding F5 (known_findings.txt, DESIGN 13.4c) -- a frame overwritten by a copy of another valid frame is delivered as data; the bounded enumeration E-dmg (part of this check) reports it as KNOWN-FINDING'],
     ),
     'C09': dict(
         level='proof',
@@ -136,7 +136,7 @@ PROPS = {
                 'the batch is validated before any record of it is applied (O-C12-validate). '
                 'Composition L-C12 (spec/vtorn.rs, lemma_torn_tail): for every stream offset, every sequence of entries of any sizes and EVERY cut point (byte granularity), a WAL that reads as zeros behind the cut is recovered as a PREFIX of the entries written, each whole, followed by the end of the log (after at most one Corruption) -- no batch with a hole or a missing tail, nothing from behind the cut; hypothesis: the checksum tells a frame payload from its zero-tailed truncations (the "up to a CRC-32 collision" of the property, shown satisfiable); at the logical level (lemma_torn_tail_replay) open then computes the replay of a prefix of the entries written.',
         kani_quick=['E-dmg'], kani_thorough=['E-hist'],
-        trusted=[FS, 'MultiRecord::{serialize,serialize_with_pos} are VERIFIED over the assumed contracts of bytes::Buf (R10: a cursor over a byte string; chunk() a non-empty prefix while bytes remain) and of (start..).zip(it) (R19); the payload iterator is assumed to obey vstd\'s iterator laws and to be finite (iter_ok, a precondition of append_records)'], not_decided=['in-place damage other than a zero tail (bit flips, garbage): decided per frame by O-C08-step / O-C12-deliver, not composed over histories', 'that a crashed file system presents a zero tail (sequential writes into pre-zeroed files): assumption about the FS, see C02'],
+        trusted=[FS, 'MultiRecord::{serialize,serialize_with_pos} are VERIFIED over the assumed contracts of bytes::Buf (R10: a cursor over a byte string; chunk() a non-empty prefix while bytes remain) and of (start..).zip(it) (R19); the payload iterator is assumed to obey vstd\'s iterator laws and to be finite (iter_ok, a precondition of append_records)'], not_decided=['in-place damage other than a zero tail (bit flips, garbage): decided per frame by O-C08-step / O-C12-deliver, not composed over histories', 'that a crashed file system presents a zero tail (sequential writes into pre-zeroed files): assumption about the FS, see C02', 'a frame of the batch overwritten by a copy of another valid frame (finding F5, known_findings.txt, DESIGN 13.4c): the batch can come back with a hole; reported as KNOWN-FINDING by E-dmg'],
     ),
     'C13': dict(
         level='proof',
